@@ -2187,7 +2187,7 @@ ASSUMPTIONS = [
 
 def run(tier, seed):
     core.standard_run(PID, tier, seed, {
-        'model_vos': ['Codec/C15Run', 'Gen/Tables'], 'table_sections': ['c15_names', 'c15_events', 'c15_rules', 'c15_ldap'],
+        'model_vos': ['Codec/C15Run', 'Gen/Tables'], 'table_sections': ['c15_names', 'c15_events', 'c15_rules', 'c15_ldap', 'source_shape'],
         'preamble': PREAMBLE, 'run_fn': RUN_FN, 'in_type': 'c15case',
         'gen_case': gen_case, 'impl_run': impl_run, 'expected': expected, 'case_term': case_term,
         'oracle': oracle, 'nontrivial': nontrivial,
